@@ -79,16 +79,20 @@ class History:
     def iovecs(self, for_read, total_cap=20000):
         r = self.r
         n = r.choice([0, 1, 1, 2, 3, 4, 8])
+        many = r.random() < 0.05
+        if many:
+            # vector counts up to and around the host's IOV_MAX (1024 on Linux): POSIX accepts exactly IOV_MAX segments and rejects more
+            n = r.choice([16, 100, 1023, 1024, 1024, 1025, 2000])
         segs = []
         for i in range(n):
-            L = r.choice([0, 0, 1, 2, 7, 64, 500, 4096, r.randint(0, 6000)])
+            L = r.choice([0, 0, 1, 2, 7, 64, 500, 4096, r.randint(0, 6000)]) if not many else r.choice([0, 1, 1, 2, 3])
             segs.append(L)
         while sum(segs) > total_cap:
             segs[segs.index(max(segs))] //= 2
         arr = self.alloc(8 * max(n, 1), 4)
         bufs = []
-        shape = r.choice(['separate', 'adjacent', 'overlap', 'unordered'])
-        base = self.alloc(sum(segs) + 64 * (n + 1), 1)
+        shape = r.choice(['separate', 'adjacent', 'overlap', 'unordered']) if not many else 'adjacent'
+        base = self.alloc(sum(segs) + (64 * (n + 1) if not many else 64), 1)
         pos = base
         for i, L in enumerate(segs):
             if shape == 'separate':
